@@ -41,6 +41,24 @@ fn cfg12() -> GenCfg {
     cfg
 }
 
+/// every backslash of the text starts an escaped backslash or an escaped solidus: the two escapes the library decodes in names, whose
+/// selector text is also the normalized spelling (any other escape is the region of the open finding K3)
+fn only_plain_backslash_escapes(text: &str) -> bool {
+    let cs: Vec<char> = text.chars().collect();
+    let mut i = 0;
+    while i < cs.len() {
+        if cs[i] == '\\' {
+            if i + 1 < cs.len() && (cs[i + 1] == '\\' || cs[i + 1] == '/') {
+                i += 2;
+                continue;
+            }
+            return false;
+        }
+        i += 1;
+    }
+    true
+}
+
 /// (a) the three convenience methods and the parse-once route agree position by position
 fn random_entry_points(src: &mut Src, obs: &mut Obs) -> Res {
     let cfg = cfg12();
@@ -90,7 +108,7 @@ fn random_entry_points(src: &mut Src, obs: &mut Obs) -> Res {
         // "the same nodes": the paths listed by query_only_path must spell the very nodes query returned
         // (where no name selector is double-quoted or escaped - a path step made from such a selector is
         // the open finding K2 of C03; steps made by wildcards, descendants and filters are not affected)
-        if !text.contains('"') && !text.contains('\\') {
+        if !text.contains('"') && only_plain_backslash_escapes(&text) {
             let via_paths: Vec<Option<Loc>> = ps.iter().map(|p| crate::recog::path_to_loc(p)).collect();
             if via_paths != *vs {
                 let mut c = case();
